@@ -85,7 +85,7 @@ def plan(tier, seed, func_mod="vp.props.C01"):
                 pre += ["role in (0, 1, 3, 4, 6)"]
             if cname == "SCRG":
                 pre += ["ds in (0, 1, 3, 8)", "cs in (0, 3, 5, 7)", "role in (0, 4) or (ds == 0 and cs == 0)", "gi < 2", "not xa", "el == 0 or (ds in (0, 8) and cs in (0, 7))",
-                        "gi == 0 or ds == 8 or cs == 5"]
+                        "gi == 0 or ds == 8 or cs == 5", "not flip or gi == 0"]
         elif kk == 4:
             pre += ["not xa", "el < 2 or cls == 0"]
         elif cname == "SCRG":
@@ -102,9 +102,9 @@ def plan(tier, seed, func_mod="vp.props.C01"):
         params["flip"] = "bool"
         pre = list(pr) + (["flip == False"] if n == "bare" else [])
         if tier == "quick":
-            pre += {"star4": ["lig in (0, 1)", "gi % 4 == 0", "order % 5 == 0 or order < 4", "chg in (0, 2)"],
+            pre += {"star4": ["lig in (0, 1)", "gi % 4 == 0", "order % 6 == 0 or order < 2", "chg in (0, 2)", "not flip or gi == 0 or cls == 1"],
                     "lonepair": ["lig in (0, 1)", "gi % 4 == 0", "order % 5 == 0", "chg in (0, 1)"],
-                    "dbond": ["sub in (0, 1, 2, 4)", "order % 9 == 0 or order < 3", "chg in (0, 3)", "gi % 2 == 0"],
+                    "dbond": ["sub in (0, 1, 2, 4)", "order % 12 == 0 or order < 2", "chg in (0, 3)", "gi % 2 == 0", "not flip or gi == 0 or cls == 1"],
                     "ring4": ["chg in (0, 2)"], "sn2": ["gi < 3"], "bare": ["k < 8", "k < 7 or cls == 1"]}.get(n, [])
         else:
             # sized so that the thorough tier of C01 / C03 stays near a quarter of an hour on 16 cores (measured 0.4-0.6 CPU-s per input)
